@@ -76,13 +76,11 @@ func (c *compiler) loadSymbols() {
 }
 
 func (c *compiler) expandExpression(expr []token, line int) ([]token, error) {
-	input := expr
-	var output []token
+	output := expr
 
-	for !exprEqual(input, output) {
-		if len(output) > 0 {
-			input = output
-		}
+	// substitute until nothing changes any more
+	for {
+		input := output
 
 		output = make([]token, 0)
 		for _, tok := range input {
@@ -107,6 +105,10 @@ func (c *compiler) expandExpression(expr []token, line int) ([]token, error) {
 			} else {
 				output = append(output, tok)
 			}
+		}
+
+		if exprEqual(input, output) {
+			break
 		}
 	}
 	return output, nil
